@@ -113,6 +113,7 @@ func cmdVerify(args []string) {
 	for _, r := range results {
 		all = append(all, r.Obls...)
 	}
+	batchAll(results, cfg)
 	dischargeAll(all, cfg)
 	bad := 0
 	for _, r := range results {
